@@ -15,6 +15,7 @@ import (
 	"math/rand"
 	"net"
 	"os"
+	"reflect"
 	"strings"
 	"sync"
 	"sync/atomic"
@@ -50,6 +51,33 @@ func (c *tconn) Read(p []byte) (int, error) {
 	return c.Scripted.Read(p)
 }
 
+func (c *tconn) Close() error {
+	err := c.Scripted.Close()
+	c.rec.closeOnce.Do(func() { close(c.rec.closedCh) })
+	return err
+}
+
+// underlying resolves the scripted conn behind the value handed to the hook: the conn itself, or - with
+// MaxConnsPerIP > 0 - the net.Conn embedded in fasthttp's pooled per-IP wrapper (nil once the wrapper was closed).
+func underlying(nc net.Conn) *tconn {
+	if tc, ok := nc.(*tconn); ok {
+		return tc
+	}
+	v := reflect.ValueOf(nc)
+	if v.Kind() == reflect.Ptr && !v.IsNil() {
+		v = v.Elem()
+	}
+	if v.Kind() != reflect.Struct {
+		return nil
+	}
+	f := v.FieldByName("Conn")
+	if !f.IsValid() || !f.CanInterface() || f.Kind() != reflect.Interface || f.IsNil() {
+		return nil
+	}
+	tc, _ := f.Interface().(*tconn)
+	return tc
+}
+
 type stateEv struct {
 	St        fasthttp.ConnState
 	Delivered int
@@ -68,20 +96,22 @@ type histCfg struct {
 }
 
 type connRec struct {
-	cfg      histCfg
-	conn     *tconn
-	bounds   []int // end offsets of the leading complete requests of the script
-	mu       sync.Mutex
-	seq      []stateEv
-	judged   bool
-	term     chan struct{}
-	termOnce sync.Once
-	started  chan struct{} // gate handler entered
-	startOne sync.Once
-	hjDone   chan struct{}
-	hjOnce   sync.Once
-	rejected bool // expected to be turned away with 503
-	hijacked atomic.Bool
+	cfg       histCfg
+	conn      *tconn
+	bounds    []int // end offsets of the leading complete requests of the script
+	mu        sync.Mutex
+	seq       []stateEv
+	judged    bool
+	term      chan struct{}
+	termOnce  sync.Once
+	started   chan struct{} // gate handler entered
+	startOne  sync.Once
+	hjDone    chan struct{}
+	hjOnce    sync.Once
+	rejected  bool // expected to be turned away with 503
+	closedCh  chan struct{}
+	closeOnce sync.Once
+	hijacked  atomic.Bool
 }
 
 type caseCfg struct {
@@ -92,6 +122,9 @@ type caseCfg struct {
 	DisableKeepalive bool      `json:"disable_keepalive"`
 	MaxReqPerConn    int       `json:"max_requests_per_conn"`
 	Reject           bool      `json:"reject"`
+	StreamBody       bool      `json:"stream_request_body"`
+	MaxConnsPerIP    int       `json:"max_conns_per_ip"`
+	RemoteIPs        []string  `json:"remote_ips,omitempty"`
 	Conns            []histCfg `json:"conns"`
 }
 
@@ -195,7 +228,7 @@ func genHist(rnd *rand.Rand, gate bool) histCfg {
 func newRec(h histCfg) *connRec {
 	script := []byte(h.Script)
 	msgs, _ := h1.ParseRequests(script)
-	rec := &connRec{cfg: h, term: make(chan struct{}), started: make(chan struct{}), hjDone: make(chan struct{})}
+	rec := &connRec{cfg: h, closedCh: make(chan struct{}), term: make(chan struct{}), started: make(chan struct{}), hjDone: make(chan struct{})}
 	for _, m := range msgs {
 		if m.Fatal != "" || m.Has(h1.FIncomplete) {
 			break
@@ -282,8 +315,11 @@ func trace(seq []stateEv) string {
 }
 
 // judge runs the regular-language monitor and the byte join over one connection's hook calls.
-func judge(mode string, rmu bool, rec *connRec, seq []stateEv, r *mon.Run) []finding {
+func judge(mode string, rmu bool, rec *connRec, seq []stateEv, r *mon.Run, lenient bool) []finding {
 	var out []finding
+	if len(seq) == 0 && lenient {
+		return nil // per-IP mode: calls on a closed wrapper cannot be attributed; the per-value monitor judges them
+	}
 	if len(seq) == 0 {
 		key := "no-states"
 		if mode == "ServeConn" && rec.rejected {
@@ -347,10 +383,50 @@ func judge(mode string, rmu bool, rec *connRec, seq []stateEv, r *mon.Run) []fin
 			out = append(out, finding{"unknown-state", "hook called with " + to})
 		}
 	}
-	if terminal == "" {
+	if terminal == "" && lenient {
+		// per-IP mode: StateClosed arrives on the already emptied wrapper; judged by the per-value monitor
+	} else if terminal == "" {
 		out = append(out, finding{"no-terminal-state", "connection finished (server closed it / handed it over) without StateClosed or StateHijacked; last state " + state})
 	} else if (terminal == "hijacked") != rec.hijacked.Load() {
 		r.Event("skipped_terminal_kind_vs_hijack_mismatch", 1)
+	}
+	return out
+}
+
+// judgeLifecycles is the lifecycle-tolerant monitor for one conn VALUE handed to the hook (per-IP wrappers are
+// pooled, so one value may carry several connections one after the other): the call sequence must be a
+// concatenation of complete lifecycles New (Active Idle)* Active? (Closed|Hijacked) once every connection of
+// the case has finished.
+func judgeLifecycles(seq []fasthttp.ConnState) []finding {
+	var out []finding
+	state := "none"
+	for _, st := range seq {
+		to := stName(st)
+		term := st == fasthttp.StateClosed || st == fasthttp.StateHijacked
+		switch {
+		case state == "none" && st == fasthttp.StateNew:
+			state = "new"
+		case state == "none":
+			out = append(out, finding{"perip-" + to + "-without-new", "on this conn value " + to + " is reported with no open lifecycle (no preceding StateNew on the same value)"})
+			if !term {
+				state = to
+			}
+		case term:
+			state = "none"
+		case st == fasthttp.StateNew:
+			out = append(out, finding{"perip-new-inside-open-lifecycle", "StateNew on a value whose previous lifecycle (last state " + state + ") has no terminal state"})
+			state = "new"
+		case st == fasthttp.StateActive && state != "active":
+			state = "active"
+		case st == fasthttp.StateIdle && state == "active":
+			state = "idle"
+		default:
+			out = append(out, finding{"perip-transition-" + state + "-" + to, "illegal transition inside a lifecycle"})
+			state = to
+		}
+	}
+	if state != "none" {
+		out = append(out, finding{"perip-lifecycle-unfinished", "all connections of the case have finished, but the last lifecycle on this conn value (last state " + state + ") never got StateClosed/StateHijacked"})
 	}
 	return out
 }
@@ -368,8 +444,14 @@ func runCase(r *mon.Run, i int) {
 		cfg.MaxReqPerConn = 1 + rnd.Intn(3)
 	}
 	cfg.Reject = rnd.Intn(8) == 0
+	cfg.StreamBody = rnd.Intn(3) == 0
+	if rnd.Intn(5) == 0 {
+		cfg.MaxConnsPerIP = 1 + rnd.Intn(3)
+		cfg.Reject = false // the 503 choreography needs the terminal call attributed to the connection
+	}
+	perIP := cfg.MaxConnsPerIP > 0
 	nconn := 1
-	if cfg.Mode == "Serve" {
+	if cfg.Mode == "Serve" || perIP {
 		nconn = 1 + rnd.Intn(3)
 	}
 	if cfg.Reject {
@@ -381,6 +463,11 @@ func runCase(r *mon.Run, i int) {
 		cfg.Conns = append(cfg.Conns, h)
 		rec := newRec(h)
 		rec.rejected = cfg.Reject && k == 1
+		if perIP {
+			ip := net.IPv4(10, 0, 0, byte(1+rnd.Intn(2)))
+			rec.conn.Remote = &net.TCPAddr{IP: ip, Port: 40000 + k}
+			cfg.RemoteIPs = append(cfg.RemoteIPs, ip.String())
+		}
 		recs = append(recs, rec)
 	}
 
@@ -390,6 +477,8 @@ func runCase(r *mon.Run, i int) {
 		ReduceMemoryUsage:     cfg.RMU,
 		DisableKeepalive:      cfg.DisableKeepalive,
 		MaxRequestsPerConn:    cfg.MaxReqPerConn,
+		StreamRequestBody:     cfg.StreamBody,
+		MaxConnsPerIP:         cfg.MaxConnsPerIP,
 		Logger:                nolog{},
 		MaxIdleWorkerDuration: 5 * time.Millisecond,
 		NoDefaultServerHeader: true,
@@ -405,7 +494,10 @@ func runCase(r *mon.Run, i int) {
 	}
 	s.Handler = func(ctx *fasthttp.RequestCtx) {
 		p := string(ctx.Path())
-		tc, _ := ctx.Conn().(*tconn)
+		tc := underlying(ctx.Conn())
+		if cfg.StreamBody {
+			ctx.Request.Body() // consume the streamed body so that the connection stays reusable
+		}
 		switch {
 		case strings.HasPrefix(p, "/hijack"):
 			if strings.HasSuffix(p, "nr") {
@@ -417,6 +509,10 @@ func runCase(r *mon.Run, i int) {
 				ctx.Hijack(func(c net.Conn) {
 					defer rec.hjOnce.Do(func() { close(rec.hjDone) })
 					io.Copy(io.Discard, c)
+					if perIP {
+						// keep the pooled wrapper until StateHijacked has been reported on it
+						waitFor(rec.term, termWait)
+					}
 				})
 			}
 		case strings.HasPrefix(p, "/gate"):
@@ -429,10 +525,32 @@ func runCase(r *mon.Run, i int) {
 		}
 		ctx.WriteString("ok:" + p)
 	}
+	var vmu sync.Mutex
+	vals := map[net.Conn][]fasthttp.ConnState{}
+	var valOrder []net.Conn
+	terminals := 0
+	termSig := make(chan struct{}, 16)
 	s.ConnState = func(nc net.Conn, st fasthttp.ConnState) {
-		tc, ok := nc.(*tconn)
-		if !ok {
-			hookForeign.Add(1)
+		if perIP {
+			vmu.Lock()
+			if _, seen := vals[nc]; !seen {
+				valOrder = append(valOrder, nc)
+			}
+			vals[nc] = append(vals[nc], st)
+			if st == fasthttp.StateClosed || st == fasthttp.StateHijacked {
+				terminals++
+			}
+			vmu.Unlock()
+			select {
+			case termSig <- struct{}{}:
+			default:
+			}
+		}
+		tc := underlying(nc)
+		if tc == nil {
+			if !perIP {
+				hookForeign.Add(1)
+			}
 			return
 		}
 		rec := tc.rec
@@ -462,7 +580,12 @@ func runCase(r *mon.Run, i int) {
 
 	switch {
 	case cfg.Mode == "ServeConn" && !cfg.Reject:
-		serve(recs[0])
+		for _, rec := range recs {
+			serve(rec)
+			if rec.hijacked.Load() {
+				waitFor(rec.hjDone, termWait) // sequential connections: the hijack handler releases the conn first
+			}
+		}
 	case cfg.Mode == "ServeConn" && cfg.Reject:
 		doneA := make(chan struct{})
 		go func() { defer close(doneA); serve(recs[0]) }()
@@ -528,7 +651,38 @@ func runCase(r *mon.Run, i int) {
 				}
 			}
 		}
-		if incon == "" {
+		if incon == "" && perIP {
+			// the terminal call arrives on the emptied wrapper: wait for the conns to be closed, then for as many
+			// terminal calls as connections that got past the per-IP limit
+			for _, rec := range recs {
+				if !wait(rec.closedCh) {
+					incon = "connection not closed"
+				}
+			}
+			expected := 0
+			for _, rec := range recs {
+				if !strings.HasPrefix(string(rec.conn.Written()), "HTTP/1.1 429") {
+					expected++
+				}
+			}
+			deadline := time.After(termGrace())
+		waitTerm:
+			for incon == "" {
+				vmu.Lock()
+				n := terminals
+				vmu.Unlock()
+				if n >= expected {
+					break
+				}
+				select {
+				case <-termSig:
+				case <-deadline:
+					r.Event("perip_terminal_wait_expired", 1)
+					missingTerminal.Add(1)
+					break waitTerm
+				}
+			}
+		} else if incon == "" {
 			for _, rec := range recs {
 				// Once a few connections were seen closed by the server without any terminal
 				// hook call after the full watchdog, later cases wait only briefly (the
@@ -589,7 +743,10 @@ func runCase(r *mon.Run, i int) {
 		}
 		tr := trace(seq)
 		traces = append(traces, tr)
-		for _, f := range judge(cfg.Mode, cfg.RMU, rec, seq, r) {
+		if perIP && strings.HasPrefix(string(rec.conn.Written()), "HTTP/1.1 429") {
+			r.Event("perip_rejections_429", 1)
+		}
+		for _, f := range judge(cfg.Mode, cfg.RMU, rec, seq, r, perIP) {
 			r.Violation(i, f.key, fmt.Sprintf("%s rmu=%v conn#%d ending=%s frag=%s: %s; hook trace: [%s]; script %s", cfg.Mode, cfg.RMU, k, rec.cfg.Ending, rec.cfg.Frag, f.what, tr, mon.Short([]byte(rec.cfg.Script), 120)),
 				map[string]any{"config": cfg, "conn": k, "trace": tr, "server_wrote": mon.Short(rec.conn.Written(), 200)})
 		}
@@ -605,21 +762,49 @@ func runCase(r *mon.Run, i int) {
 			r.Event("read_timeouts_injected", 1)
 		}
 	}
+	if perIP {
+		vmu.Lock()
+		for vi, v := range valOrder {
+			seq := vals[v]
+			r.Event("perip_values_judged", 1)
+			news := 0
+			for _, st := range seq {
+				if st == fasthttp.StateNew {
+					news++
+				}
+			}
+			if news > 1 {
+				r.Event("perip_values_reused_by_pool", 1)
+			}
+			var names []string
+			for _, st := range seq {
+				names = append(names, stName(st))
+			}
+			for _, f := range judgeLifecycles(seq) {
+				r.Violation(i, f.key, fmt.Sprintf("%s MaxConnsPerIP=%d rmu=%v: conn value #%d (%T) handed to the hook: %s; calls on this value: [%s]; per-connection traces: %v", cfg.Mode, cfg.MaxConnsPerIP, cfg.RMU, vi, v, f.what, strings.Join(names, " "), traces),
+					map[string]any{"config": cfg, "value_calls": names})
+			}
+		}
+		vmu.Unlock()
+	}
 	var cls []string
 	for _, h := range cfg.Conns {
 		cls = append(cls, fmt.Sprintf("%d%s/%s", h.NReq, h.Ending, h.Frag))
 	}
-	r.Case(fmt.Sprintf("%s|rmu=%v|rej=%v|dk=%v|mr=%d|rt=%v|%s", cfg.Mode, cfg.RMU, cfg.Reject, cfg.DisableKeepalive, cfg.MaxReqPerConn, cfg.ReadTimeout, strings.Join(cls, ",")), nontrivial)
+	if cfg.StreamBody && cfg.RMU {
+		r.Event("cases_rmu_with_streamrequestbody", 1)
+	}
+	r.Case(fmt.Sprintf("%s|rmu=%v|srb=%v|perip=%d|rej=%v|dk=%v|mr=%d|rt=%v|%s", cfg.Mode, cfg.RMU, cfg.StreamBody, cfg.MaxConnsPerIP, cfg.Reject, cfg.DisableKeepalive, cfg.MaxReqPerConn, cfg.ReadTimeout, strings.Join(cls, ",")), nontrivial)
 	if nontrivial && r.WantSample() {
-		r.Sample(map[string]any{"mode": cfg.Mode, "reduce_memory_usage": cfg.RMU, "reject": cfg.Reject, "conns": cls, "script0": mon.Short([]byte(cfg.Conns[0].Script), 100), "hook_traces": traces})
+		r.Sample(map[string]any{"mode": cfg.Mode, "reduce_memory_usage": cfg.RMU, "stream_request_body": cfg.StreamBody, "max_conns_per_ip": cfg.MaxConnsPerIP, "reject": cfg.Reject, "conns": cls, "script0": mon.Short([]byte(cfg.Conns[0].Script), 100), "hook_traces": traces})
 	}
 }
 
 func TestC14(t *testing.T) {
 	r := mon.Start(t, "C14")
 	defer r.Finish()
-	r.Rule("case = Server{ReduceMemoryUsage, ReadTimeout/IdleTimeout set, DisableKeepalive, MaxRequestsPerConn} x {ServeConn, Serve over a listener handing out 1-3 scripted conns} x per-connection history {0-3 well-formed requests (GET/HEAD/POST/PUT, CL/chunked/Expect bodies) then eof | garbage | partial request | read timeout while idle | read timeout inside a request | hijack (with/without response) | Connection: close by request / by handler | HTTP/1.0} x fragmentation {1 byte, fixed n, request boundaries, everything at once = pipelined} x 503 rejection by Concurrency=1 (first conn parked in its handler); distinct = (mode, config, per-connection (requests, ending, fragmentation)); non-trivial = at least one ConnState call was observed")
-	r.Assume("connections are keyed by the net.Conn value handed to the hook; this is the conn given to ServeConn / returned by Accept only with MaxConnsPerIP = 0 (with a per-IP limit fasthttp wraps the conn in a pooled perIPConn, identity is then not observable) - all cases use MaxConnsPerIP = 0")
+	r.Rule("case = Server{ReduceMemoryUsage, StreamRequestBody, MaxConnsPerIP 0|1-3 (remote 10.0.0.1/2), ReadTimeout/IdleTimeout set, DisableKeepalive, MaxRequestsPerConn} x {ServeConn, Serve over a listener handing out 1-3 scripted conns} x per-connection history {0-3 well-formed requests (GET/HEAD/POST/PUT, CL/chunked/Expect bodies) then eof | garbage | partial request | read timeout while idle | read timeout inside a request | hijack (with/without response) | Connection: close by request / by handler | HTTP/1.0} x fragmentation {1 byte, fixed n, request boundaries, everything at once = pipelined} x 503 rejection by Concurrency=1 (first conn parked in its handler); distinct = (mode, config, per-connection (requests, ending, fragmentation)); non-trivial = at least one ConnState call was observed")
+	r.Assume("with MaxConnsPerIP = 0 connections are keyed by the net.Conn value handed to the hook (the conn given to ServeConn / returned by Accept). With MaxConnsPerIP > 0 fasthttp hands a pooled wrapper to the hook: every conn VALUE seen by the hook must then carry a concatenation of complete lifecycles once all connections of the case have finished (lifecycle-tolerant monitor); transitions and the byte join are additionally checked per connection as far as the wrapper still points to it (reflection on its embedded Conn); connections turned away by the per-IP limit (429) get no hook call and are not judged; hijack handlers in those cases return only after StateHijacked was reported")
 	r.Assume("request boundaries of the client script are those of the independent h1 reference on well-formed generated requests; 'received' = handed out by the scripted conn's Read (netx.Scripted.Delivered sampled inside the hook)")
 	r.Assume("a read timeout is modelled by a conn whose Read returns a net.OpError wrapping os.ErrDeadlineExceeded once the script is exhausted (the scripted conn ignores deadlines)")
 	r.Assume("which terminal state (closed vs hijacked) is reported is not judged, only that there is exactly one and nothing follows it until the case ends (hijack handler finished, Serve returned)")
@@ -637,5 +822,8 @@ func TestC14(t *testing.T) {
 		r.Require("terminal_hijacked", 1)
 		r.Require("rejections_503", 1)
 		r.Require("read_timeouts_injected", 1)
+		r.Require("cases_rmu_with_streamrequestbody", n/20)
+		r.Require("perip_values_judged", n/10)
+		r.Require("perip_values_reused_by_pool", 1)
 	}
 }
